@@ -218,12 +218,12 @@ def run(ctx):
     default_args_oracle(ctx, g)
     ctor_copy_oracle(ctx, g)
     aggregate_kinds_oracle(ctx, g)
-    for shape in ("setitem-same-list", "setslice-same-list"):
+    for shape in ("setitem-same-list", "setslice-same-list", "setslice-repeated-value"):
         w, _ = world.d4_probe(g, shape)
         bad = world.oracle_forest(w)
         ctx.case("d4:" + shape, True)
         if bad:
-            ctx.add("oracle", "listwrapper-" + shape, "ir.modules assignment of a module already in the same list: " + "; ".join(bad[:2]),
+            ctx.add("oracle", "listwrapper-" + shape, "ir.modules assignment of a module already in the same list / named twice in the assigned list: " + "; ".join(bad[:2]),
                     {"shape": shape, "problems": bad})
     worldgen.compare(ctx, hists, "forest", "C04 forest correspondence")
     ctx.cov["histories"] = nh
